@@ -15,63 +15,89 @@ The request sent to the driver also carries what the implementation produced (`o
 written in Lean (`htmlChars`, `Tex.depths`, brace balance) are evaluated on the implementation's output.  The oracle
 additionally reads HTML with Python's `html.parser` and LaTeX with a brace / control-sequence reader of its own.
 """
-import html.parser
 import io
 import itertools
 import json
+import os
 import sys
+import tempfile
+
+import re
 
 import compat  # noqa: F401
 from props import c08
+from props import c09_readers as R
 from props.base import corpus_for
 
 ID = 'C09'
 LEAN_MODULES = ['PybtexModel.Props.C09']
 THEOREMS = {
-    'C09_tables': 'the regenerated tables have the shape the theorems rely on: markdown SPECIAL_CHARS covers the fixed list of characters Markdown lets one backslash-escape (dropping one breaks the build), has no duplicates, the backslash first; html escapes are the three entities; every symbol of every backend is non-empty, brace-balanced in LaTeX, an entity or plain characters in HTML; the LaTeX codec table maps no ASCII character to text containing a brace',
+    'C09_tables': 'the regenerated tables have the shape the theorems rely on: markdown SPECIAL_CHARS covers the fixed list of characters Markdown lets one backslash-escape (dropping one breaks the build), has no duplicates, the backslash first; html escapes are the three entities; every symbol of every backend is non-empty, brace-balanced in LaTeX, an entity or plain characters in HTML; the symbols are written as the FIXED tables of the specification say (plain text: - / blank / blank; Markdown: one of the documented forms; LaTeX: -- ~ \\newblock); the LaTeX codec table maps no ASCII character to text containing a brace, its entries are control symbols of escapable characters or text control words and cover every special character except \\ { } $ ^; the non-ASCII part of the table is ASCII-valued, non-empty and brace-balanced',
     'C09_html_wellformed': 'HTML: for identifier-like tag names and quote-free URLs the output is well formed -- the strict reader accepts it and finds every character inside exactly the elements of the markup attached to it',
     'C09_html_text': 'HTML: the character data of the output (entities read back) equals the plain text',
     'C09_md_escaped': 'Markdown: every String is emitted character by character: a character of the escape list as backslash + itself, & < > as entities, everything else unchanged; the reader undoes it; holds for every String part of the rendering of every tree (token level)',
     'C09_latex_balanced': 'LaTeX: when every String part (after the codec) and every URL is brace-balanced the whole output is brace-balanced',
+    'C09_latex_balanced_neg': 'LaTeX: the hypothesis cannot be dropped -- Tag(em, "a}") renders as \\emph{a}} (finding C09-latex-text-passthrough)',
     'C09_latex_scope': 'LaTeX: the emitted string is the flattening of a token sequence (markup-open | markup-close | text) whose markup tokens are well nested and in which every atom is enclosed by exactly the tags / links / protected groups attached to it; \\url{URL} is emitted exactly when the rendered link text is the encoded URL',
-    'C09_plain': 'plain text: the output is the text with symbols replaced from the table',
+    'C09_latex_inert_partial': 'LaTeX, string level, "never let it act as markup": what format_str emits for a String without the five characters \\ { } $ ^ is read back by LaTeX (reader Tex.readText: category codes, control symbols, control words that swallow blanks) as exactly that string, alone and directly behind a control word',
+    'C09_latex_inert_neg': 'LaTeX: each of \\ { } $ ^ goes through the codec unescaped and is not read as text; "$x^2$ \\foo{" is written unchanged (finding C09-latex-text-passthrough)',
+    'C09_latex_encoding': 'latex.Backend(encoding) for every encoding that contains ASCII: an encoded String is representable in the encoding, non-erased, of the same brace depth; the encoder fails exactly on a character the encoding lacks and the table does not translate; a successful rendering is representable (URLs permitting), is the rendering of the total backend over the encoder\'s total extension -- hence well nested at token level and brace-balanced when its parts are --; the first exception in evaluation order is raised; UTF-8 is the total encoder',
+    'C09_plain': 'plain text: the output is the text with symbols replaced by their plain equivalents (the fixed table of the specification)',
+    'C09_symbols': 'every backend writes for the three symbols what the fixed tables of the specification say (HTML: something read back as the symbol\'s text); any other symbol is a KeyError in every backend',
     'C09_empty_vanishes': 'an empty tagged or linked fragment renders as the empty string in all four backends',
     'C09_from_latex_depth': 'from_latex: for a brace-balanced (decoded) value the rich text has every character at its brace depth (as nesting of Protected) -- adjacent groups merge, empty groups vanish -- and, when the codec leaves the characters alone, the depth sequence of the LaTeX rendering equals that of the value; an unbalanced value yields the syntax error located behind the first closing brace that closes nothing, else behind the last brace',
     'C09_encode': 'the modelled ASCII part of the latexcodec encoder satisfies the assumptions the LaTeX theorems make about the codec: nothing is erased, brace-free text stays brace-free, balanced text stays balanced, characters outside the table are passed through',
-    'C09_document': 'write_to_stream writes the prologue, every entry in order (its rendering inside the entry frame), the epilogue -- for every bibliography including the empty one (proposed fix C09-1); the longest label is the first of maximal width',
+    'C09_document': 'write_to_stream writes the prologue, every entry in order (its rendering inside the entry frame), the epilogue -- for every bibliography including the empty one (fix C09-1); the longest label is the first of maximal width',
+    'C09_document_frame': 'the frame of an entry: HTML is well formed whatever the label (label inside <dt>, text inside <dd>; fix C09-2), Markdown escapes the label like every string (fix C09-2), and for a label without braces TeX reads the optional argument of \\bibitem as the label, also when it contains ] (fix C09-3), followed by the key',
+    'C09_document_frame_neg': 'LaTeX writes label and key verbatim: an unbalanced brace in the label leaves \\bibitem[ without argument, A&B is written unescaped and not read as text (finding C09-latex-label-verbatim)',
 }
 LEVEL_TEXT = ('Machine-checked proofs (Lean 4) over an executable model that follows pybtex/backends/{__init__,html,markdown,latex,plaintext}.py, '
               'pybtex/markup/__init__.py and Text.from_latex function by function, stated against small independent readers of the output '
-              'formats (a strict HTML fragment reader, a Markdown un-escaper, a brace-depth reader, a token reader that checks nesting): HTML output is '
-              'well formed and reads back as the text inside the right elements; Markdown escapes every character of the fixed escapable set; LaTeX '
-              'markup is well nested and encloses exactly the atoms it was attached to (token level), and is brace-balanced at string level whenever the '
-              'text parts are; plain text is the text with symbols replaced; empty tags / links vanish; from_latex keeps every character at its '
-              'brace depth and locates unbalanced braces.  Tables (escapes, SPECIAL_CHARS, tags, symbols, prologue, the ASCII part of the latexcodec encoder) '
-              'are regenerated from /repo on every run; the model is tied to the code by a correspondence check over an exhaustive small scope '
-              '(all strings of length <=2 over the 25 metacharacters + a letter + a blank, x 4 backends; all C08 trees; every tag name x link mode x backend; '
-              'all short brace strings) and random trees / values / documents; the implementation output is additionally read by Python html.parser and a brace reader.')
+              'formats (a strict HTML fragment reader, a Markdown un-escaper, a brace-depth reader, a token reader that checks nesting, LaTeX\'s reading of text by category codes, '
+              'TeX\'s reading of an optional argument): HTML output is well formed and reads back as the text inside the right elements, for whole entries whatever the label; Markdown '
+              'escapes every character of the fixed escapable set; LaTeX markup is well nested and encloses exactly the atoms it was attached to (token level), is brace-balanced at string '
+              'level whenever the text parts are, and text without the five characters \\ { } $ ^ is read back by LaTeX as text (string level); the LaTeX backend created with any '
+              'encoding writes representable, equally nested output or raises; plain text is the text with symbols replaced by fixed plain equivalents; every backend writes the symbols '
+              'the fixed tables name; empty tags / links vanish; from_latex keeps every character at its brace depth and locates unbalanced braces.  Tables (escapes, SPECIAL_CHARS, tags, '
+              'symbols, prologue, the ASCII and non-ASCII parts of the latexcodec encoder) are regenerated from /repo and the codec on every run; the model is tied to the code by a '
+              'correspondence check over an exhaustive small scope (all strings of length <=2 over the 25 metacharacters + a letter + a blank, x 4 backends; all C08 trees; every tag name x '
+              'link mode x backend; Markdown code spans / emphasis runs / link syntax; non-ASCII words x encodings; labels and keys over the metacharacters x every document configuration; '
+              'write_to_file; all short brace strings) and random trees / values / documents; the implementation output is additionally read by Python html.parser, a LaTeX reader and a '
+              'CommonMark inline reader (harness/props/c09_readers.py).')
 LEVEL_NOTE = ('Trusted: Lean kernel; axioms propext/Classical.choice/Quot.sound only; the readers and token type of Spec/Backends.lean must be read and agreed with; '
               'the model corresponds to the code only as far as the differential check explores.  ASSUMED, not verified: latexcodec -- the encoder is a parameter of the model '
               '(theorems state what they need of it: non-erasing, brace-free/balanced text stays so, identity on the characters of the value for the string-level depth claim); '
-              'its default instance is the two-state machine (blank after a control word) over an ASCII table regenerated by probing the real codec on code points 0..127 and all '
-              'pairs with the special characters, non-ASCII passed through (UTF-8 backend only); the decoder is a bare parameter (the harness feeds the really decoded value to the model). '
-              'xml.sax.saxutils.escape is modelled by its probed character table.  NOT claimed: URL escaping (URLs are emitted verbatim by all backends; HTML theorems assume quote-free URLs, '
-              'LaTeX balance assumes brace-balanced URLs), tag names that are not identifier-like in HTML, labels / keys / preamble of a document (plain strings, written verbatim). '
-              'LaTeX: latexcodec passes { } \\ $ ^ in text through unescaped, so at string level text CAN act as markup in the LaTeX backend; the property is therefore stated at token level '
-              '(as in the property text: the commands and braces *emitted for tags, links and protected groups*), and at string level only for brace-balanced parts. '
-              'Proved for the model WITH proposed fix C09-1 (empty bibliography through the LaTeX backend raised ValueError from max()); on the unpatched tree the check reports it. '
+              'its instances are the two-state machine (blank after a control word) over the ASCII table regenerated by probing the real codec on code points 0..127 and all '
+              'pairs with the special characters, and over the non-ASCII part of its translation table (367 characters, probed under ascii / latin-1 / UTF-8); the input encodings modelled are '
+              'ascii, latin-1 and UTF-8; the decoder is a bare parameter (the harness feeds the really decoded value to the model). '
+              'xml.sax.saxutils.escape is modelled by its probed character table.  KNOWN LIMITS of the code, recorded as findings and reported by every run (KNOWN-FINDING lines): '
+              'LaTeX passes \\ { } $ ^ of the text through (by design: field values are LaTeX source), writes URLs verbatim (a % or # in a link inside a command argument breaks it) and '
+              'writes labels / keys verbatim; Markdown code spans show the escaped source, emphasis delimiters ignore the delimiter-run rules, link destinations with parentheses and nested '
+              'links are not expressible.  NOT claimed: URLs outside RFC 3986 characters or spelling an HTML character reference (emitted verbatim by all backends; HTML theorems assume '
+              'quote-free URLs, LaTeX balance assumes brace-balanced URLs), tag names that are not identifier-like in HTML / Markdown, the preamble (LaTeX source by definition, written verbatim), '
+              'block-level Markdown structure and white-space collapsing, symbols other than the three of BaseBackend (KeyError; modelled and compared, no clause), the bytes of write_to_file beyond '
+              '"the text read back with the same encoding" where the encoding can hold the document. '
+              'Proved for the model WITH fix C09-1 (committed) and the proposed fixes C09-2 (HTML / Markdown escape the label), C09-3 (LaTeX braces a label containing ]) and C09-4 (an '
+              'untranslatable character under a narrow encoding raises PybtexError, not UnicodeEncodeError); on a tree without them the check reports each with a failing input. '
               'Runtime limit (#32): LaTeXParser and the rich-text constructors recurse once per brace level, CPython raises RecursionError at roughly 330-500 nested groups; the model is total, '
               'generators keep the nesting depth an explicit parameter (<= 40, plus 100 / 200 in the thorough tier), and a labelled stream at depth 600 is compared with the recursion limit lifted. '
-              'Characters are arbitrary code points (no case mapping is involved); unknown symbols (KeyError) are modelled but not generated.')
-RULE = ('one evaluation = one rendering of a rich-text tree through one backend, one LaTeX value through from_latex + the LaTeX backend, or one whole document through '
-        'write_to_stream; non-trivial = non-empty text / value containing a brace / document with at least one entry; distinct by case JSON')
-TRUSTED = ['the tree builder of harness/props/c08.py; Python html.parser and the brace / control-sequence reader of harness/props/c09.py (independent readers used by the oracle)',
-           'latexcodec (encoder modelled on ASCII by a probed table, decoder a parameter), xml.sax.saxutils.escape (probed table)']
-ASSUMPTIONS = ['LaTeX backend with the default UTF-8 encoding; tag names / URLs are plain strings; symbols are the three every backend knows',
-               'latexcodec behaves on all strings as the two-state machine verified on the probed ASCII shapes; its decoder is fed to the model as data']
+              'Characters are arbitrary code points (no case mapping is involved).')
+RULE = ('one evaluation = one rendering of a rich-text tree through one backend (for LaTeX: created with one encoding), one LaTeX value through from_latex + the LaTeX backend, or one whole '
+        'document through write_to_stream / write_to_file; non-trivial = non-empty text / value containing a brace / document with at least one entry; distinct by case JSON')
+TRUSTED = ['the tree builder of harness/props/c08.py; the independent readers of harness/props/c09_readers.py used by the oracle: Python html.parser (+ HTML5 attribute character references), '
+           'a LaTeX reader (category codes, control sequences, \\href / \\url arguments as hyperref reads them, the thebibliography frame), a CommonMark 0.30 inline reader (escapes, entities, '
+           'code spans, emphasis by delimiter runs, inline links, raw HTML tags)',
+           'latexcodec (encoder modelled by probed tables, decoder a parameter; the decoder is also the reader of translated output under ascii / latin-1), xml.sax.saxutils.escape (probed table)',
+           'the fixed tables of the oracle: what the three symbols are in each format, which Markdown element the five documented tags stand for, RFC 3986 URL characters']
+ASSUMPTIONS = ['LaTeX backend with the encodings ascii, latin-1, UTF-8 (and the default); tag names / URLs are plain strings; reader clauses on identifier-like tag names, URLs of RFC 3986 characters, the three symbols every backend knows',
+               'latexcodec behaves on all strings as the two-state machine verified on the probed shapes; its decoder is fed to the model as data',
+               'Markdown is read by the CommonMark 0.30 inline rules; block structure and white-space collapsing are not interpreted',
+               'write_to_file is compared where the file encoding can represent the document']
 TABLE_OWNERS = ('C09',)
 
 BACKENDS = ['html', 'markdown', 'latex', 'plaintext']
+ENCODINGS = [None, 'ascii', 'latin-1', 'UTF-8']          # the encodings Model/Backends.lean names (`Latex.encodableIn`)
+KNOWN_SYMBOLS = ('ndash', 'nbsp', 'newblock')
 
 # ------------------------------------------------------------------------------------------------
 # the implementation side
@@ -93,16 +119,35 @@ def make_backend(name, encoding=None, php_extra=False):
     if name == 'html':
         return h.Backend(encoding)
     if name == 'markdown':
-        return markdown.Backend(php_extra=php_extra)
+        return markdown.Backend(encoding=encoding, php_extra=php_extra)
     if name == 'latex':
-        return latex.Backend()
+        return latex.Backend(encoding)
     if name == 'plaintext':
-        return plaintext.Backend()
+        return plaintext.Backend(encoding)
     raise ValueError(name)
 
 
 def _exc(e):
     return {'exception': compat.pybtex_error_kind(e), 'detail': ('%s' % (e,))[:200]}
+
+
+def _symbols(t, out):
+    if isinstance(t, dict):
+        if 'y' in t:
+            out.append(t['y'])
+        for p in t.get('p', []):
+            _symbols(p, out)
+    return out
+
+
+def _unknown_symbol(e, trees):
+    """a KeyError raised by `backend.symbols[name]` for a symbol no backend knows (outside the property's domain: the three
+    symbols of BaseBackend): reported as such, not as an internal error"""
+    if type(e) is KeyError and len(e.args) == 1:
+        names = [y for t in trees for y in _symbols(t, []) if y not in KNOWN_SYMBOLS]
+        if e.args[0] in names:
+            return {'unknown_symbol': e.args[0]}
+    return None
 
 
 def string_parts(obj, out):
@@ -118,13 +163,13 @@ def string_parts(obj, out):
 def impl_render(case):
     try:
         obj = c08.build(case['tree'])
-        b = make_backend(case['backend'])
+        b = make_backend(case['backend'], case.get('encoding'))
         out = {'text': obj.render(b)}
         if not isinstance(out['text'], str):
             return {'exception': 'INTERNAL:not-a-string', 'detail': repr(type(out['text']))}
         return out
     except Exception as e:
-        return _exc(e)
+        return _unknown_symbol(e, [case['tree']]) or _exc(e)
 
 
 def decode_value(v):
@@ -174,15 +219,28 @@ def impl_fromlatex(case):
 
 def impl_document(case):
     from pybtex.style import FormattedBibliography, FormattedEntry
+    path = None
     try:
         b = make_backend(case['backend'], case.get('encoding'), bool(case.get('php_extra')))
         entries = [FormattedEntry(e['key'], c08.build(e['tree']), e['label']) for e in case['entries']]
         bib = FormattedBibliography(entries, _style(), preamble=case.get('preamble', ''))
+        if case.get('via') == 'file':
+            fd, path = tempfile.mkstemp(prefix='c09-', suffix=b.default_suffix or '')
+            os.close(fd)
+            ret = b.write_to_file(bib, path)
+            with io.open(path, 'r', encoding=b.encoding, newline='') as f:
+                return {'text': f.read(), 'returned': ret}
         stream = io.StringIO()
         b.write_to_stream(bib, stream)
         return {'text': stream.getvalue()}
     except Exception as e:
-        return _exc(e)
+        return _unknown_symbol(e, [x['tree'] for x in case['entries']]) or _exc(e)
+    finally:
+        if path is not None:
+            try:
+                os.unlink(path)
+            except OSError:
+                pass
 
 
 def impl(case):
@@ -197,9 +255,10 @@ def impl(case):
 
 
 def compare_view(io_):
-    if isinstance(io_, dict) and 'default_limit' in io_:
+    if isinstance(io_, dict) and ('default_limit' in io_ or 'detail' in io_):
         io_ = dict(io_)
-        del io_['default_limit']
+        io_.pop('default_limit', None)
+        io_.pop('detail', None)
     return io_
 
 
@@ -222,70 +281,39 @@ def to_request(case):
     return req
 
 
+def _model_view(case, out, trees):
+    """the reply of the driver in the vocabulary of `impl`"""
+    if out == 'KeyError':
+        names = [y for t in trees for y in _symbols(t, []) if y not in KNOWN_SYMBOLS]
+        return {'unknown_symbol': names[0] if names else None}
+    if out == 'EncodeError':
+        return {'exception': 'PybtexError'}       # proposed fix C09-4 (the unpatched code lets UnicodeEncodeError through)
+    if isinstance(out, str):
+        return {'model': out}
+    return out
+
+
 def model_out(case, reply):
     out = reply['out']
     if case['op'] == 'fromlatex' and case.get('brief') and isinstance(out, dict) and 'tree' in out:
         out = {'latex': out['latex']}
+    if case['op'] == 'render':
+        out = _model_view(case, out, [case['tree']])
+    elif case['op'] == 'document':
+        out = _model_view(case, out, [e['tree'] for e in case['entries']])
+        if case.get('via') == 'file' and isinstance(out, dict) and 'text' in out:
+            out = dict(out, returned=None)          # a real file has no getvalue(): write_to_file returns nothing
     return out
 
 
 # ------------------------------------------------------------------------------------------------
-# independent readers (Python side)
+# independent readers (Python side): harness/props/c09_readers.py
 # ------------------------------------------------------------------------------------------------
 
-VOID = {'meta', 'br', 'hr', 'img', 'link', 'input'}
-
-
-class _Reader(html.parser.HTMLParser):
-    def __init__(self):
-        super().__init__(convert_charrefs=True)
-        self.stack = []
-        self.runs = []          # [stack, chars]
-        self.ok = True
-        self.why = None
-
-    def handle_starttag(self, tag, attrs):
-        if tag not in VOID:
-            self.stack.append(tag)
-
-    def handle_startendtag(self, tag, attrs):
-        pass
-
-    def handle_endtag(self, tag):
-        if not self.stack or self.stack[-1] != tag:
-            self.ok = False
-            self.why = self.why or 'end tag </%s> with open elements %r' % (tag, self.stack)
-        else:
-            self.stack.pop()
-
-    def handle_data(self, data):
-        if self.runs and self.runs[-1][0] == self.stack:
-            self.runs[-1][1] += data
-        else:
-            self.runs.append([list(self.stack), data])
-
-    def handle_comment(self, data):
-        self.ok = False
-        self.why = self.why or 'comment'
-
-    def handle_pi(self, data):
-        self.ok = False
-        self.why = self.why or 'processing instruction'
-
-    def unknown_decl(self, data):
-        self.ok = False
-        self.why = self.why or 'unknown declaration'
-
-
-def html_read(text):
-    """(ok, why, runs) -- runs = [[element stack, chars], ...] as Python's html.parser sees the fragment"""
-    r = _Reader()
-    r.feed(text)
-    r.close()
-    if r.stack:
-        r.ok = False
-        r.why = r.why or 'unclosed elements %r' % r.stack
-    return r.ok, r.why, [run for run in r.runs if run[1]]
+html_read = R.html_read
+tex_read = R.tex_read
+md_read = R.md_read
+tree_strings = R.tree_strings
 
 
 def merge_runs(runs):
@@ -328,96 +356,155 @@ def brace_depths(s):
     return out if d == 0 else None
 
 
-def tex_read(s):
-    """A reader of the LaTeX subset the backend emits for ordinary text (no backslash / brace in the text itself):
-    items ('ch', c, depth) (`\\#` is `#`, `\\textasciitilde` is `~`) | ('nbsp', '', depth) for a bare `~` | ('cw', 'newblock', depth); the URL argument of \\href is skipped, the argument of \\url is read
-    verbatim; a blank after a control word is swallowed, `\\ ` is a blank.  None = not readable / unbalanced."""
-    out = []
-    depth = 0
-    i, n = 0, len(s)
-    verb = []        # depths at which a \url group was opened (its content is verbatim)
-    while i < n:
-        c = s[i]
-        if verb:
-            if c == '}' and depth == verb[-1]:
-                verb.pop()
-                depth -= 1
-            else:
-                out.append(('ch', c, depth))
-                if c == '{':
-                    return None
-            i += 1
-            continue
-        if c == '{':
-            depth += 1
-            i += 1
-        elif c == '}':
-            depth -= 1
-            if depth < 0:
-                return None
-            i += 1
-        elif c == '\\':
-            j = i + 1
-            while j < n and s[j].isascii() and s[j].isalpha():
-                j += 1
-            if j == i + 1:            # control symbol
-                if j >= n:
-                    return None
-                out.append(('ch', s[j], depth))
-                i = j + 1
-                continue
-            name = s[i + 1:j]
-            i = j
-            if name == 'href':
-                if s.startswith('[pdfnewwindow]', i):
-                    i += len('[pdfnewwindow]')
-                if i >= n or s[i] != '{':
-                    return None
-                k = s.find('}', i)
-                if k < 0 or k + 1 >= n or s[k + 1] != '{':
-                    return None
-                i = k + 2
-                depth += 1
-            elif name == 'url':
-                if i >= n or s[i] != '{':
-                    return None
-                depth += 1
-                verb.append(depth)
-                i += 1
-            elif name in TEXT_WORDS:
-                out.append(('ch', '~', depth) if name == 'textasciitilde' else ('cw', name, depth))
-                if i < n and s[i] == ' ':
-                    i += 1
-            elif i < n and s[i] == '{':      # a command applied to the group that follows
-                pass
-            else:
-                return None
-        elif c == '~':                     # an active character: the no-break space
-            out.append(('nbsp', '', depth))
-            i += 1
-        else:
-            out.append(('ch', c, depth))
-            i += 1
-    return out if depth == 0 and not verb else None
-
-
-TEXT_WORDS = ('textasciitilde', 'newblock')        # control words that stand for text, not for markup
-
-
+# what the three symbols are in each output format, fixed here (not read from the backends)
 LATEX_SYMS = {'ndash': [('ch', '-'), ('ch', '-')], 'nbsp': [('nbsp', '')], 'newblock': [('ch', '\n'), ('cw', 'newblock')]}
+MD_SYMBOL_CHARS = {'ndash': u'–-', 'nbsp': u' \xa0', 'newblock': u'\n '}     # as a Markdown reader sees it: the symbol's text or its plain equivalent
+# the element a Markdown reader must find around the text of the five tags BaseBackend documents; any other tag is raw HTML
+MD_TAG_ELEM = {'em': 'em', 'i': 'em', 'strong': 'strong', 'b': 'strong', 'tt': 'code'}
+LATEX_PASS_THROUGH = '\\{}$^'          # the characters with a special category code that latexcodec leaves alone
+URL_CHARS = set('ABCDEFGHIJKLMNOPQRSTUVWXYZabcdefghijklmnopqrstuvwxyz0123456789' + "-._~:/?#[]@!$&'()*+,;=%")   # RFC 3986
+_CHARREF = re.compile(r'&(?:#[0-9]+|#[xX][0-9a-fA-F]+|[A-Za-z][A-Za-z0-9]*);')
+_IDENT = re.compile(r'^[A-Za-z][A-Za-z0-9]*$')
 
 
-def tex_expected(sem):
+def ordinary_url(u):
+    """the "ordinary URLs" of the property: non-empty, made of the characters RFC 3986 allows, not spelling an HTML character reference"""
+    return u != '' and all(c in URL_CHARS for c in u) and not _CHARREF.search(u)
+
+
+def atoms_of(tree):
+    """[(stack, atom)] per character / symbol (harness-side twin of `sem`)"""
+    return R.py_sem(tree)
+
+
+def links_of(atoms):
+    """the URLs of the links of a text, in order: a link is a maximal run of atoms that share the link markup at the same place of
+    their stacks (adjacent links with the same URL and mode are one link: that is what the constructors build)"""
+    out = []
+    prev = ()
+    for st, _a in atoms:
+        common = 0
+        while common < len(prev) and common < len(st) and prev[common] == st[common]:
+            common += 1
+        for m in st[common:]:
+            if m[0] == 'href':
+                out.append(m[1])
+        prev = st
+    return out
+
+
+def _spec_atoms(sem):
+    """the driver's `sem` (runs of characters) per atom, in the vocabulary of `py_sem`"""
     out = []
     for st, a in sem:
-        d = len(st)
+        stack = tuple(tuple(m) for m in st)
         if isinstance(a, str):
             for ch in a:
-                out.append(('ch', ch, d))
+                out.append((stack, ch))
+        else:
+            out.append((stack, {'y': a['y']}))
+    return out
+
+
+def tex_expected(atoms):
+    out = []
+    for st, a in atoms:
+        d = len(st)
+        if isinstance(a, str):
+            out.append(('ch', a, d))
         else:
             for kind, x in LATEX_SYMS[a['y']]:
                 out.append((kind, x, d))
     return out
+
+
+def _drop_blanks_after_words(items):
+    """TeX skips the blanks that follow a control word: blanks of the text directly behind `\\newblock ` (itself white space) do not count"""
+    out = []
+    for it in items:
+        if it[0] == 'ch' and it[1] == ' ' and out and out[-1][0] == 'cw':
+            continue
+        out.append(it)
+    return out
+
+
+def _first_diff(got, exp):
+    for i, (g, e) in enumerate(zip(got, exp)):
+        if g != e:
+            return 'item %d: read %r, attached %r' % (i, g, e)
+    if len(got) != len(exp):
+        return 'read %d items, the text has %d (%r ...)' % (len(got), len(exp), (got[len(exp):] or exp[len(got):])[:3])
+    return None
+
+
+def latex_text_clause(tree, text):
+    """string level, every input: reading the output as LaTeX gives exactly the characters of the text, each at the group depth
+    of the markup attached to it, and nothing that TeX takes for markup; every link points to its URL.  None = holds."""
+    atoms = atoms_of(tree)
+    r = tex_read(text)
+    if r is None:
+        return 'the output %r is not readable as nested groups' % text
+    got, links = r
+    got = _drop_blanks_after_words(got)
+    exp = _drop_blanks_after_words(tex_expected(atoms))
+    if got != exp:
+        return 'reading the output %r: %s' % (text, _first_diff(got, exp))
+    want = links_of(atoms)
+    if links != want:
+        return 'the links of the output %r point to %r, the URLs are %r' % (text, links, want)
+    return None
+
+
+def md_expected(atoms):
+    out = []
+    for st, a in atoms:
+        elems = []
+        for m in st:
+            if m[0] == 'tag':
+                elems.append(MD_TAG_ELEM.get(m[1], m[1].lower()))
+            elif m[0] == 'href':
+                elems.append('a')
+        elems.sort()
+        if isinstance(a, str):
+            out.append((a, elems))
+        else:
+            out.append((MD_SYMBOL_CHARS[a['y']], elems))      # any one of these characters
+    return out
+
+
+def md_reader_clause(tree, text):
+    """a Markdown reader (CommonMark inline rules) returns the text -- every character inside the emphasis / code / link / raw
+    HTML elements of the markup attached to it -- and the link targets.  None = holds."""
+    r = md_read(text)
+    if r is None:
+        return 'the raw HTML tags of %r are not well nested' % text
+    items, links = r
+    exp = md_expected(atoms_of(tree))
+    for i, ((c, st), (alts, elems)) in enumerate(zip(items, exp)):
+        if c not in alts or sorted(st) != elems:
+            return 'reading %r: character %d is %r inside %r, the text has %r inside %r' % (text, i, c, list(st), alts, elems)
+    if len(items) != len(exp):
+        return 'reading %r gives %d characters, the text has %d (%r)' % (
+            text, len(items), len(exp), ''.join(c for c, _ in items[len(exp):]) or [a for a, _ in exp[len(items):]][:5])
+    want = links_of(atoms_of(tree))
+    if links != want:
+        return 'the links of %r point to %r, the URLs are %r' % (text, links, want)
+    return None
+
+
+def _tag_names(t, out):
+    if isinstance(t, dict) and 'p' in t:
+        if t['k'] == 'tag':
+            out.append(t['n'])
+        for p in t['p']:
+            _tag_names(p, out)
+    return out
+
+
+def reader_domain(tree):
+    """the trees on which the reader clauses are evaluated: identifier-like tag names, ordinary URLs, the three symbols"""
+    return (all(_IDENT.match(n) for n in _tag_names(tree, [])) and all(ordinary_url(u) for u in _urls(tree, []))
+            and all(y in KNOWN_SYMBOLS for y in _symbols(tree, [])))
 
 
 MD_ESCAPABLE = '\\`*_{}[]()#+-.!'      # Markdown's fixed list (J. Gruber, "Backslash escapes")
@@ -486,28 +573,92 @@ def tree_depths(t, d, out):
     return out
 
 
-def tree_strings(t, out):
-    if isinstance(t, str):
-        out.append(t)
-    elif 'p' in t:
-        for p in t['p']:
-            tree_strings(p, out)
-    return out
-
-
 def _top_kind(t):
     return 'str' if isinstance(t, str) else 'sym' if 'y' in t else t['k']
+
+
+def _encodable(s, enc):
+    try:
+        s.encode(enc or 'UTF-8')
+    except UnicodeEncodeError:
+        return False
+    return True
+
+
+_ROUNDTRIP = {}
+_UNTRANSLATABLE = {}
+
+
+def untranslatable(c, enc):
+    """the library has no way to write the character in this encoding (neither the encoding nor latexcodec's table has it)"""
+    k = (c, enc)
+    if k not in _UNTRANSLATABLE:
+        import codecs
+        import latexcodec  # noqa: F401
+        try:
+            codecs.encode(c, 'ulatex+' + (enc or 'UTF-8'))
+            _UNTRANSLATABLE[k] = False
+        except UnicodeEncodeError:
+            _UNTRANSLATABLE[k] = True
+    return _UNTRANSLATABLE[k]
+
+
+
+def codec_reads_back(c):
+    """does latexcodec's decoder read the ASCII translation of the character back as the character? (the independent reader of the
+    translated output; a few compatibility characters -- ligatures, modifier letters -- are translated to their ASCII look-alikes)"""
+    if c not in _ROUNDTRIP:
+        import codecs
+        import latexcodec  # noqa: F401
+        try:
+            _ROUNDTRIP[c] = all(codecs.decode(codecs.encode(ctx % c, 'ulatex+ascii'), 'ulatex') == ctx % c for ctx in ('%s', 'a%sb', '%s b'))
+        except (UnicodeError, ValueError):
+            _ROUNDTRIP[c] = False
+    return _ROUNDTRIP[c]
+
+
+_LIGATURES = [(u'—', '---'), (u'–', '--'), (u'“', '``'), (u'”', "''"), (u'‘', '`'), (u'’', "'"), (u'¡', '!`'), (u'¿', '?`'), (u'„', ',,'),
+              (u'«', '<<'), (u'»', '>>')]
+
+
+def _decode_latex(text):
+    """latexcodec's decoder as the reader of translated output (white space apart); the characters TeX makes from ligatures of ASCII characters are spelled
+    out again, so that two neighbouring ligatures are not told apart by where the decoder happens to cut them (---- = -- -- = --- -)"""
+    import codecs
+    import latexcodec  # noqa: F401
+    d = codecs.decode(text, 'ulatex')
+    for ch, spelled in _LIGATURES:
+        d = d.replace(ch, spelled)
+    # white space is not compared: TeX (and the decoder) skips every kind of white space behind a control word, the encoder protects blanks only
+    return ''.join(d.split())
 
 
 def oracle_render(case, io_, spec):
     fails = []
     b = case['backend']
+    tree = case['tree']
+    enc = case.get('encoding')
+    unknown = [y for y in _symbols(tree, []) if y not in KNOWN_SYMBOLS]
+    if atoms_of(tree) != _spec_atoms(spec['sem']):
+        return ['harness: the string of pairs computed by the harness differs from `sem` of the specification']
+    if 'unknown_symbol' in io_:
+        # outside the domain of the property (the symbols are the three BaseBackend documents); the model says which KeyError
+        return [] if io_['unknown_symbol'] in unknown else ['render_total: KeyError(%r) although the tree has no such symbol' % (io_['unknown_symbol'],)]
     if 'text' not in io_:
-        return ['render_total: rendering through the %s backend raised %s (%s)' % (b, io_.get('exception'), io_.get('detail'))]
+        kind = io_.get('exception', '')
+        strings = tree_strings(tree, []) + _urls(tree, [])
+        if b == 'latex' and not all(_encodable(x, enc) for x in strings):
+            # the requested encoding lacks a character: a translation or a pybtex error, never a raw codec error
+            if kind.startswith('INTERNAL:'):
+                return ['render_error_class: rendering %r through latex.Backend(%r) raised %s (%s), not a pybtex error' % (
+                    [x for x in strings if not _encodable(x, enc)][:2], enc, kind, io_.get('detail'))]
+            return []
+        return ['render_total: rendering through the %s backend raised %s (%s)' % (b, kind, io_.get('detail'))]
     text = io_['text']
     plain = spec['plain']
-    if spec['empty'] and _top_kind(case['tree']) in ('tag', 'href') and text != '':
-        fails.append('empty_vanishes: an empty %s renders as %r through the %s backend' % (_top_kind(case['tree']), text, b))
+    in_domain = reader_domain(tree)
+    if spec['empty'] and _top_kind(tree) in ('tag', 'href') and text != '':
+        fails.append('empty_vanishes: an empty %s renders as %r through the %s backend' % (_top_kind(tree), text, b))
     if b == 'html' and spec['html_ok']:
         # the Lean reader on the implementation's output
         got = spec.get('observed_html_chars')
@@ -518,7 +669,7 @@ def oracle_render(case, io_, spec):
         elif spec.get('observed_html_runs') != spec['plain_elems']:
             fails.append('html_wellformed: characters sit in elements %r, markup attached is %r' % (spec.get('observed_html_runs'), spec['plain_elems']))
         # Python's html.parser as a second, independent reader
-        ok, why, runs = html_read(text)
+        ok, why, runs, links = R.html_read_links(text)
         if not ok:
             fails.append('html_wellformed: html.parser: %s in %r' % (why, text))
         else:
@@ -527,37 +678,67 @@ def oracle_render(case, io_, spec):
                 fails.append('html_text: html.parser reads %r, the text is %r' % (chars, plain))
             elif merge_runs(runs) != merge_runs(spec['plain_elems']):
                 fails.append('html_wellformed: html.parser finds the characters in %r, markup attached is %r' % (merge_runs(runs), spec['plain_elems']))
+            want = links_of(atoms_of(tree))
+            if in_domain and links != want:
+                fails.append('html_link: the links of %r point to %r, the URLs are %r' % (text, links, want))
     elif b == 'markdown':
         strings = [s for s, _e, _u in spec['md_strings']]
         why = md_find_all(strings, text)
         if why:
             fails.append('md_escaped: %s: %r' % (why, text))
         # a link keeps its target: the URL is what the link points to, the text is what is shown
-        for u, ext in _links(case['tree'], []):
+        for u, ext in _links(tree, []):
             want = ('<a href="%s" target="_blank">' % u) if ext else ('](%s)' % u)
             if want not in text:
                 fails.append('md_link: the link to %r (external=%r) with non-empty text does not appear as %r in %r' % (u, ext, want, text))
+        if in_domain and not fails:
+            why = md_reader_clause(tree, text)
+            if why:
+                fails.append('md_reader: %s' % why)
     elif b == 'latex':
+        default_enc = enc is None or enc.lower() in ('utf-8', 'utf8')
         if spec['strings_balanced'] and spec['urls_balanced'] and not brace_balanced(text):
             fails.append('latex_balanced: all text parts and URLs are brace-balanced, the output %r is not' % text)
         if spec['strings_balanced'] and spec['urls_balanced'] and spec.get('observed_balanced') is False:
             fails.append('latex_balanced: (Lean reader) the output %r is not brace-balanced' % text)
-        if not spec.get('tokens_read_ok', True):
-            fails.append('latex_scope: the token-level rendering is not well nested / does not enclose the atoms: %r' % (spec.get('tokens'),))
-        if spec.get('tokens_flat') is not None and spec['tokens_flat'] != text:
-            fails.append('latex_scope: the output %r is not the flattening %r of the well-nested token sequence' % (text, spec['tokens_flat']))
-        strings = [s for s, _e, _u in spec['md_strings']]
-        urls = _urls(case['tree'], [])
-        if not any(ch in s for s in strings + urls for ch in '\\{}'):
-            got = tex_read(text)
-            exp = tex_expected(spec['sem'])
-            if got is None:
-                fails.append('latex_scope: the output %r is not readable as nested groups' % text)
-            elif got != exp:
-                fails.append('latex_scope: reading the output gives %r; the markup attached is %r' % (got, exp))
+        if default_enc:
+            if not spec.get('tokens_read_ok', True):
+                fails.append('latex_scope: the token-level rendering is not well nested / does not enclose the atoms: %r' % (spec.get('tokens'),))
+            if spec.get('tokens_flat') is not None and spec['tokens_flat'] != text:
+                fails.append('latex_scope: the output %r is not the flattening %r of the well-nested token sequence' % (text, spec['tokens_flat']))
+            if spec.get('out_utf8_total') != {'text': text} and not fails:
+                fails.append('latex_scope: the output %r is not what the total model of the UTF-8 backend gives (%r)' % (text, spec.get('out_utf8_total')))
+        # the requested encoding can represent the output (the markup is emitted verbatim: it has to be representable itself)
+        markup = _urls(tree, []) + _tag_names(tree, [])
+        if all(_encodable(x, enc) for x in markup):
+            if not _encodable(text, enc):
+                fails.append('latex_encodable: latex.Backend(%r) wrote %r, which %s cannot represent' % (enc, text, enc))
+            if spec.get('observed_encodable') is False:
+                fails.append('latex_encodable: (Lean reader) the output %r is not representable in %r' % (text, enc))
+        strings = tree_strings(tree, [])
+        direct = all(_encodable(x, enc) for x in strings)
+        lost = [c for x in strings for c in x if not _encodable(c, enc) and untranslatable(c, enc)]
+        if lost and not unknown:
+            fails.append('latex_untranslatable: latex.Backend(%r) wrote %r although the text contains %r, which neither %s nor a LaTeX translation can express: the character is lost' % (
+                enc, text, lost[:3], enc))
+        if in_domain and direct and not fails:
+            # string level, all inputs: the text is read back character by character, nothing of it acts as markup
+            why = latex_text_clause(tree, text)
+            if why:
+                fails.append('latex_text: %s' % why)
+        elif in_domain and not direct and not fails and all(_encodable(c, enc) or codec_reads_back(c) for x in strings for c in x):
+            # translated characters: the LaTeX decoder reads the same text (braces included: same depth) from this output
+            # as from the output of the UTF-8 backend
+            ref = impl_render({'tree': tree, 'backend': 'latex'})
+            try:
+                if 'text' in ref and _decode_latex(text) != _decode_latex(ref['text']):
+                    fails.append('latex_encoding_text: latex.Backend(%r) wrote %r, which decodes to %r; the UTF-8 backend wrote %r, which decodes to %r' % (
+                        enc, text, _decode_latex(text), ref['text'], _decode_latex(ref['text'])))
+            except (UnicodeError, ValueError):
+                pass
     elif b == 'plaintext':
         if text != plain:
-            fails.append('plain: output %r, the text with symbols replaced is %r' % (text, plain))
+            fails.append('plain: output %r, the text with symbols replaced by their plain equivalents is %r' % (text, plain))
     return fails
 
 
@@ -617,52 +798,122 @@ def oracle_fromlatex(case, io_, spec):
     return fails
 
 
+def _md_plain_chars(s):
+    """the characters an inline Markdown reader finds in a piece of the document that carries no markup; None if it finds markup"""
+    r = md_read(s)
+    if r is None or r[1] or any(st for _c, st in r[0]):
+        return None
+    return ''.join(c for c, _st in r[0])
+
+
 def oracle_document(case, io_, spec):
     fails = []
     b = case['backend']
+    enc = case.get('encoding')
+    trees = [e['tree'] for e in case['entries']]
+    unknown = [y for t in trees for y in _symbols(t, []) if y not in KNOWN_SYMBOLS]
+    if 'unknown_symbol' in io_:
+        return [] if io_['unknown_symbol'] in unknown else ['document_total: KeyError(%r) although no entry has such a symbol' % (io_['unknown_symbol'],)]
     if 'text' not in io_:
-        return ['document_total: write_to_stream of %d entries through the %s backend raised %s (%s)' % (
-            len(case['entries']), b, io_.get('exception'), io_.get('detail'))]
+        kind = io_.get('exception', '')
+        strings = [x for t in trees for x in tree_strings(t, []) + _urls(t, [])]
+        if b == 'latex' and not all(_encodable(x, enc) for x in strings):
+            if kind.startswith('INTERNAL:'):
+                return ['render_error_class: writing %r through latex.Backend(%r) raised %s (%s), not a pybtex error' % (
+                    [x for x in strings if not _encodable(x, enc)][:2], enc, kind, io_.get('detail'))]
+            return []
+        return ['document_total: writing %d entries through the %s backend raised %s (%s)' % (len(case['entries']), b, kind, io_.get('detail'))]
     doc = io_['text']
-    # every entry's own rendering occurs in the document, in order
+    if case.get('via') == 'file' and io_.get('returned') is not None:
+        fails.append('document_file: write_to_file on a real file returned %r' % (io_['returned'],))
+    # every entry's own rendering occurs in the document, in order (as disjoint pieces: earliest match first)
     pos = 0
-    for e, plain in zip(case['entries'], spec['plain']):
-        r = impl_render({'tree': e['tree'], 'backend': b})
+    texts = []
+    for e in case['entries']:
+        r = impl_render({'tree': e['tree'], 'backend': b, 'encoding': enc})
         if 'text' not in r:
-            continue
-        k2 = doc.find(e['label'], pos)
-        k = doc.find(r['text'], k2 + len(e['label'])) if k2 >= 0 else -1
-        if k < 0 or k2 < 0:
-            fails.append('document_order: label %r / rendering %r not found in order in the document' % (e['label'], r['text']))
+            fails.append('document_order: entry %r renders in the document but not alone (%r)' % (e['key'], r))
             break
+        k = doc.find(r['text'], pos)
+        if k < 0:
+            fails.append('document_order: the rendering %r of entry %r is not found in order in the document' % (r['text'], e['key']))
+            break
+        texts.append(r['text'])
         pos = k + len(r['text'])
-    if b == 'html' and spec['html_ok'] and not fails:
+    if fails:
+        return fails
+    labels = [e['label'] for e in case['entries']]
+    if b == 'html':
         ok, why, runs = html_read(doc)
         if not ok:
             fails.append('html_wellformed: document: html.parser: %s' % why)
-        else:
-            dds = []
-            # character data per <dd>: runs are split where the element stack changes; regroup by position in the document
+        elif spec['html_ok']:
+            # character data per <dt> / <dd>: runs are split where the element stack changes; regroup per element
+            data = {'dt': [], 'dd': []}
             cur = None
-            for st, chars in runs:
-                if 'dd' in st:
-                    cur = (cur or '') + chars
-                elif cur is not None:
-                    dds.append(cur)
+            for st, chars in runs + [[[], '']]:
+                which = 'dt' if 'dt' in st else 'dd' if 'dd' in st else None
+                if cur is not None and which != cur[0]:
+                    data[cur[0]].append(cur[1])
                     cur = None
-            if cur is not None:
-                dds.append(cur)
-            exp = [p for p in spec['plain'] if p]
-            if dds != exp:
-                fails.append('html_text: document: the <dd> elements hold %r, the texts are %r' % (dds, exp))
-    if b == 'plaintext' and not fails:
+                if which is not None:
+                    cur = [which, (cur[1] if cur else '') + chars]
+            if data['dd'] != [p for p in spec['plain'] if p]:
+                fails.append('html_text: document: the <dd> elements hold %r, the texts are %r' % (data['dd'], [p for p in spec['plain'] if p]))
+            if data['dt'] != [x for x in labels if x]:
+                fails.append('html_text: document: the <dt> elements hold %r, the labels are %r' % (data['dt'], [x for x in labels if x]))
+    elif b == 'markdown':
+        # the document is, entry by entry, the label frame, the rendering, the line end; the label frame must read as the label
+        php = bool(case.get('php_extra'))
+        opener, closer = ('\n:   ', '\n\n') if php else ('] ', '  \n')
+        pos = 0
+        for i, (text, label) in enumerate(zip(texts, labels)):
+            want = (label + '\n:   ') if php else ('[' + label + '] ')
+            k = doc.find(opener + text + closer, pos)
+            first = None
+            while k >= 0:
+                frame = doc[pos:k + len(opener)]
+                first = frame if first is None else first
+                if _md_plain_chars(frame) == want:
+                    break
+                k = doc.find(opener + text + closer, k + 1)
+            if k < 0:
+                fails.append('md_label: entry %d: no label frame before the rendering %r reads as %r in Markdown (document from there: %r, read as %r)' % (
+                    i, text, want, first if first is not None else doc[pos:pos + 40], _md_plain_chars(first) if first is not None else None))
+                break
+            if md_find_all([label], frame):
+                fails.append('md_escaped: the label %r is not escaped in %r' % (label, frame))
+                break
+            pos = k + len(opener) + len(text) + len(closer)
+        if not fails and pos != len(doc):
+            fails.append('md_label: text behind the last entry: %r' % doc[pos:pos + 40])
+    elif b == 'plaintext':
         exp = ''.join('[%s] %s\n' % (e['label'], p) for e, p in zip(case['entries'], spec['plain']))
         if doc != exp:
             fails.append('plain: document %r, expected %r' % (doc, exp))
-    if b == 'latex' and not fails:
+    elif b == 'latex':
         if all(brace_balanced(s) for e in case['entries'] for s in tree_strings(e['tree'], []) + _urls(e['tree'], []) + [e['label'], e['key']]) \
                 and brace_balanced(case.get('preamble', '')) and not brace_balanced(doc):
             fails.append('latex_balanced: document is not brace-balanced')
+        # the frame: \bibitem[label]{key} around every entry, read as LaTeX reads it
+        fr = R.tex_read_document(doc)
+        if isinstance(fr, str):
+            fails.append('latex_label: the document frame is not readable: %s' % fr)
+        else:
+            _pre, _widest, items = fr
+            if [x[2] for x in items] != texts:
+                fails.append('latex_label: the entries read from the document are %r, the renderings are %r' % ([x[2] for x in items][:3], texts[:3]))
+            else:
+                for (lab, key, _body), e in zip(items, case['entries']):
+                    if R.tex_read_argument_text(lab) != e['label'] or key != e['key']:
+                        fails.append('latex_label: \\bibitem of entry %r reads as label %r (as text: %r), key %r; the label is %r' % (
+                            e['key'], lab, R.tex_read_argument_text(lab), key, e['label']))
+                        break
+        markup = [x for t in trees for x in _urls(t, []) + _tag_names(t, [])] + [case.get('preamble', '')]
+        if all(_encodable(x, enc) for x in markup) and not _encodable(doc, enc):
+            bad = [x for e in case['entries'] for x in (e['label'], e['key']) if not _encodable(x, enc)]
+            fails.append('latex_doc_encodable: latex.Backend(%r) wrote a document that %s cannot represent%s' % (
+                enc, enc, ' (labels / keys %r)' % bad[:3] if bad else ''))
     return fails
 
 
@@ -680,18 +931,31 @@ def oracle(case, impl_out, reply):
 
 def buckets(case, impl_out):
     op = case['op']
+    out_kind = ('text' if 'text' in impl_out else 'unknown-symbol' if 'unknown_symbol' in impl_out else 'error:%s' % impl_out.get('exception')) \
+        if isinstance(impl_out, dict) else 'other'
     if op == 'render':
         t = case['tree']
         b = ['render:' + case['backend'], 'top:' + _top_kind(t)]
         if isinstance(impl_out, dict) and impl_out.get('text') == '':
             b.append('render:empty-output')
+        if case.get('encoding'):
+            b.append('render:latex:%s:%s' % (case['encoding'], out_kind))
+        if out_kind == 'unknown-symbol':
+            b.append('render:unknown-symbol')
         return b
     if op == 'fromlatex':
         b = ['fromlatex:' + ('error' if 'error' in impl_out else 'exception' if 'exception' in impl_out else 'ok')]
         if case.get('stream'):
             b.append('fromlatex:' + case['stream'] + (':RecursionError-at-default-limit' if impl_out.get('default_limit') else ''))
         return b
-    return ['document:%s:%d' % (case['backend'], min(len(case['entries']), 3))]
+    b = ['document:%s:%d' % (case['backend'], min(len(case['entries']), 3))]
+    if case.get('via') == 'file':
+        b.append('document:file:%s:%s' % (case['backend'], case.get('encoding')))
+    if any(set(e['label']) & set(META) for e in case['entries']):
+        b.append('document:label-with-metacharacter:' + case['backend'])
+    if out_kind != 'text':
+        b.append('document:' + out_kind)
+    return b
 
 
 def nontrivial(case, impl_out):
@@ -708,22 +972,124 @@ def corpus():
 
 
 # ------------------------------------------------------------------------------------------------
+# known findings: what fails on the unchanged tree and is not repaired (see known_findings.json)
+# ------------------------------------------------------------------------------------------------
+# Every matcher is a counterfactual: the failure belongs to a finding iff (1) the tree has the feature the finding names,
+# (2) the clause holds once the features of ALL findings of that clause are neutralised (so nothing else is wrong), and
+# (3) it still fails when every OTHER feature is neutralised (so this feature is a cause).  Neutralising = replacing the
+# offending characters / names by harmless ones of the same length and re-running the REAL backend.
+
+def _neutral_passthrough(tree):
+    return R.tree_map_strings(tree, lambda x: ''.join('x' if c in LATEX_PASS_THROUGH else c for c in x))
+
+
+def _neutral_url_hash(tree):
+    def f(nd):
+        if nd['k'] == 'href' and ('%' in nd['u'] or '#' in nd['u']):
+            nd = dict(nd, u=nd['u'].replace('%', 'x').replace('#', 'x'))
+        return nd
+    return R.tree_map_nodes(tree, f)
+
+
+def _neutral_tt(tree):
+    return R.tree_map_nodes(tree, lambda nd: dict(nd, n='code') if nd['k'] == 'tag' and nd['n'] == 'tt' else nd)
+
+
+def _neutral_emphasis(tree):
+    return R.tree_map_nodes(tree, lambda nd: dict(nd, n='span') if nd['k'] == 'tag' and nd['n'] in ('em', 'i', 'strong', 'b') else nd)
+
+
+def _neutral_md_links(tree):
+    """Markdown link syntax: destinations with parentheses, links inside links"""
+    def walk(t, inside):
+        if isinstance(t, dict) and 'p' in t:
+            if t['k'] == 'href' and not t.get('e'):
+                if inside:
+                    return {'k': 'text', 'p': [walk(p, True) for p in t['p']]}
+                u = t['u'].replace('(', 'x').replace(')', 'x')
+                return dict(t, u=u, p=[walk(p, True) for p in t['p']])
+            return dict(t, p=[walk(p, inside) for p in t['p']])
+        return t
+    return walk(tree, False)
+
+
+_CAUSES = {
+    'latex_text': [('C09-latex-text-passthrough', _neutral_passthrough), ('C09-latex-url-in-argument', _neutral_url_hash)],
+    'md_reader': [('C09-markdown-code-span', _neutral_tt), ('C09-markdown-emphasis-runs', _neutral_emphasis),
+                  ('C09-markdown-link-syntax', _neutral_md_links)],
+}
+
+
+def _clause_fails(clause, tree, case):
+    backend = 'latex' if clause == 'latex_text' else 'markdown'
+    r = impl_render({'tree': tree, 'backend': backend, 'encoding': case.get('encoding')})
+    if 'text' not in r:
+        return True
+    if clause == 'latex_text':
+        return latex_text_clause(tree, r['text']) is not None
+    return md_reader_clause(tree, r['text']) is not None
+
+
+def _cause_matcher(fid):
+    def match(case, impl_out, failure_text):
+        clause = failure_text.split(':')[0]
+        causes = _CAUSES.get(clause)
+        if case.get('op') != 'render' or not causes or fid not in [c for c, _f in causes]:
+            return False
+        tree = case['tree']
+        mine = dict(causes)[fid]
+        if mine(tree) == tree:
+            return False                                    # (1) the feature is absent
+        all_off = tree
+        others_off = tree
+        for c, f in causes:
+            all_off = f(all_off)
+            if c != fid:
+                others_off = f(others_off)
+        if _clause_fails(clause, all_off, case):
+            return False                                    # (2) something else is wrong
+        return _clause_fails(clause, others_off, case)      # (3) this feature is a cause
+    return match
+
+
+TEX_SPECIAL = R.TEX_SPECIAL
+
+
+def _label_matcher(case, impl_out, failure_text):
+    """LaTeX documents: labels and keys are written verbatim"""
+    clause = failure_text.split(':')[0]
+    if case.get('op') != 'document' or case.get('backend') != 'latex' or clause not in ('latex_label', 'latex_doc_encodable'):
+        return False
+    enc = case.get('encoding')
+    odd = [x for e in case['entries'] for x in (e['label'], e['key']) if set(x) & set(TEX_SPECIAL) or not _encodable(x, enc)]
+    if not odd:
+        return False
+    plain = dict(case, entries=[dict(e, label='L%d' % i, key='k%d' % i) for i, e in enumerate(case['entries'])])
+    o = impl_document(plain)
+    if 'text' not in o:
+        return False
+    # with harmless labels and keys the document clauses hold (the driver is not needed for them: `spec` only carries the plain texts)
+    fs = oracle_document(plain, o, {'plain': [None] * len(case['entries']), 'html_ok': True})
+    return not fs
+
+
+KNOWN_MATCHERS = {fid: _cause_matcher(fid) for causes in _CAUSES.values() for fid, _f in causes}
+KNOWN_MATCHERS['C09-latex-label-verbatim'] = _label_matcher
+
+
+# ------------------------------------------------------------------------------------------------
 # case validity (used by the shrinker)
 # ------------------------------------------------------------------------------------------------
 
 def _tree_ok(t):
-    if not c08._valid_tree(t):
-        return False
-    return all(y in LATEX_SYMS for y in _syms(t, []))
+    return c08._valid_tree(t)
 
 
-def _syms(t, out):
-    if isinstance(t, dict):
-        if 'y' in t:
-            out.append(t['y'])
-        for p in t.get('p', []):
-            _syms(p, out)
-    return out
+def _file_representable(case):
+    """`write_to_file` is compared where the file's encoding can hold the document (otherwise the stream raises UnicodeEncodeError: C17's
+    "each encoding able to represent the text")"""
+    o = impl_document(dict(case, via='stream'))
+    return 'text' not in o or _encodable(o['text'], case.get('encoding'))
 
 
 def valid_case(case):
@@ -731,7 +1097,8 @@ def valid_case(case):
         return False
     op = case.get('op')
     if op == 'render':
-        return case.get('backend') in BACKENDS and _tree_ok(case.get('tree'))
+        return (case.get('backend') in BACKENDS and _tree_ok(case.get('tree')) and case.get('encoding') in ENCODINGS and
+                (case.get('encoding') is None or case['backend'] == 'latex'))
     if op == 'fromlatex':
         v = case.get('value')
         if not isinstance(v, str):
@@ -743,10 +1110,10 @@ def valid_case(case):
         return True
     if op == 'document':
         es = case.get('entries')
-        return (case.get('backend') in BACKENDS and isinstance(es, list) and isinstance(case.get('preamble', ''), str) and
-                all(isinstance(e, dict) and isinstance(e.get('key'), str) and isinstance(e.get('label'), str) and _tree_ok(e.get('tree')) for e in es) and
-                (case.get('encoding') is None or (isinstance(case['encoding'], str) and case['encoding'] != '')) and
-                case.get('php_extra') in (None, True, False))
+        ok = (case.get('backend') in BACKENDS and isinstance(es, list) and isinstance(case.get('preamble', ''), str) and
+              all(isinstance(e, dict) and isinstance(e.get('key'), str) and isinstance(e.get('label'), str) and _tree_ok(e.get('tree')) for e in es) and
+              case.get('encoding') in ENCODINGS and case.get('php_extra') in (None, True, False) and case.get('via') in (None, 'stream', 'file'))
+        return bool(ok and (case.get('via') != 'file' or _file_representable(case)))
     return False
 
 
@@ -762,7 +1129,11 @@ TAGS_KNOWN = ['em', 'strong', 'i', 'b', 'tt', 'sup', 'sub']         # every name
 TAGS_UNKNOWN = ['span', 'x1', 'unknown']
 TAGS_ODD = ['a b', 'x>y', '', 'x-y']                                # not identifier-like: model vs code only
 URLS = ['http://x/', '/', 'a_b', 'x y', 'a&b', 'u{v}', '~', 'http://example.org/~user/#frag?a=1&b=2%20c']
-URLS_ODD = ['a"b', '{', 'a}b']                                      # not "ordinary": model vs code only
+URLS_ODD = ['a"b', '{', 'a}b', 'a<b>', 'x y)']                                      # not "ordinary": model vs code only
+URLS_SYNTAX = ['x)y', 'a(b', 'u(v)w', 'http://x/(a)', 'u%v#w', 'a#b', 'a%20b', 'http://x/?a=1&b=2#f']   # ordinary (RFC 3986 characters), hard for some output syntax
+UNKNOWN_SYMS = [{'y': 'emdash'}, {'y': 'foo'}]                      # outside the domain: KeyError, model vs code only
+NONASCII_WORDS = [u'naïve', u'é', u'Ł', u'ß x', u'ø a', u'–', u'x—y', u'α', u'€ 3', u'中', u'a\xa0b', u'œuvre', u'ıx', u'«q»', u'ﬁ', u'ǳ', u'\u2009.',
+                  u'é{x}', u'~é', u'é~', u'Ç_x', u'\xa3 5', u'\xa35']
 node = c08.node
 
 
@@ -797,6 +1168,66 @@ def href_trees():
                 yield node({'k': 'text'}, ['A ', node(k, ps), ' Z'])
 
 
+def encoding_trees():
+    for w in NONASCII_WORDS:
+        yield w
+        yield node({'k': 'tag', 'n': 'em'}, [w])
+        yield node({'k': 'prot'}, [w, 'b'])
+        yield node({'k': 'href', 'u': 'http://x/', 'e': False}, [w])
+        yield node({'k': 'text'}, ['a ', node({'k': 'tag', 'n': 'b'}, [w]), SYMS[1], w])
+    yield node({'k': 'href', 'u': u'http://x/é', 'e': False}, ['t'])         # the URL itself is not representable: model vs code only
+    yield node({'k': 'href', 'u': u'http://x/é', 'e': False}, [u'http://x/é'])
+    yield node({'k': 'href', 'u': u'€', 'e': False}, [''])                  # empty text: the URL is never encoded
+    yield node({'k': 'href', 'u': u'€', 'e': False}, ['t'])
+    yield node({'k': 'tag', 'n': u'é'}, ['t'])
+
+
+def unknown_symbol_trees():
+    for y in UNKNOWN_SYMS:
+        yield y
+        yield node({'k': 'text'}, ['a', y])
+        yield node({'k': 'tag', 'n': 'em'}, [y, 'x'])
+        yield node({'k': 'text'}, [u'x€', y])          # LaTeX with ascii: the encoder fails first
+        yield node({'k': 'text'}, [y, u'x€'])          # ... the symbol first
+        yield node({'k': 'href', 'u': u'€', 'e': False}, ['t', y])
+    yield node({'k': 'text'}, [UNKNOWN_SYMS[0], UNKNOWN_SYMS[1]])
+
+
+def markdown_trees():
+    """code spans, emphasis delimiter runs (nesting, adjacency, flanking), link syntax"""
+    em = lambda n, ps: node({'k': 'tag', 'n': n}, ps)     # noqa: E731
+    for c in ['x', 'a_b & c', 'a`b', ' a ', '*', 'a\nb', 'f(x)', 'a b']:
+        yield em('tt', [c])
+        yield node({'k': 'text'}, ['see ', em('tt', [c]), '.'])
+    yield em('tt', [em('em', ['x'])])
+    yield em('tt', [SYMS[0]])
+    yield em('em', [em('tt', ['x'])])
+    names = ['em', 'strong', 'i', 'b']
+    for n in names:
+        for m in names:
+            yield em(n, [em(m, ['x'])])
+            yield em(n, ['a', em(m, ['x'])])
+            yield em(n, [em(m, ['x']), 'b'])
+            yield em(n, ['a ', em(m, ['x']), ' b'])
+            yield node({'k': 'text'}, [em(n, ['x']), em(m, ['y'])])
+            yield node({'k': 'text'}, [em(n, ['x']), ' ', em(m, ['y'])])
+    for c in [' x', 'x ', ' ', '.x', 'x.', '"q"', '(x)', 'x', 'a b']:
+        for pre, post in [('', ''), ('a', 'b'), ('a ', ' b'), ('.', '.'), ('a', ''), ('', 'b')]:
+            yield node({'k': 'text'}, [pre, em('em', [c]), post])
+            yield node({'k': 'text'}, [pre, em('strong', [c]), post])
+    for u in URLS_SYNTAX + ['x']:
+        for e in (False, True):
+            k = {'k': 'href', 'u': u, 'e': e}
+            yield node(k, ['t'])
+            yield node({'k': 'text'}, ['see ', node(k, ['t']), ')'])
+            yield node({'k': 'tag', 'n': 'em'}, [node(k, ['t'])])
+            yield node({'k': 'tag', 'n': 'strong'}, [node(k, [u])])
+            yield node({'k': 'prot'}, [node(k, ['t'])])
+    for e1 in (False, True):
+        for e2 in (False, True):
+            yield node({'k': 'href', 'u': 'u1', 'e': e1}, ['a ', node({'k': 'href', 'u': 'u2', 'e': e2}, ['b']), ' c'])
+
+
 def symbol_trees():
     for y in SYMS:
         yield y
@@ -825,6 +1256,8 @@ def rand_tree(rng, depth, top=False):
     if depth <= 0 or (not top and r < 0.45):
         if rng.random() < 0.12:
             return rng.choice(SYMS)
+        if rng.random() < 0.04:
+            return rng.choice(NONASCII_WORDS)
         return rand_string(rng)
     k = rng.random()
     if k < 0.3:
@@ -832,7 +1265,7 @@ def rand_tree(rng, depth, top=False):
     elif k < 0.62:
         kind = {'k': 'tag', 'n': rng.choice(TAGS_KNOWN + TAGS_UNKNOWN + (TAGS_ODD if rng.random() < 0.05 else []))}
     elif k < 0.82:
-        u = rng.choice(URLS + (URLS_ODD if rng.random() < 0.05 else []))
+        u = rng.choice(URLS + URLS_SYNTAX + (URLS_ODD if rng.random() < 0.05 else []))
         kind = {'k': 'href', 'u': u, 'e': rng.random() < 0.5}
         if rng.random() < 0.3:
             return node(kind, [u])
@@ -883,19 +1316,64 @@ ENTRY_POOL = [
     {'key': 'ab', 'label': 'ab', 'tree': 'x_y'},
     {'key': 'ba', 'label': 'ba', 'tree': node({'k': 'text'}, [])},
 ]
+# labels reach the backends from the `key` field or the cite key (labels/alpha.py: entry.fields["key"][:3]): any short string
+LABELS_META = ['<b>', 'a]b', 'A&B', '}', '{', '{a}', 'a_b', '*x*', '#1', '100%', 'a\\b', '$', '~', '^', ']', '[1]', u'Knú66', '"q"', 'a b', '', 'A+',
+               'x](y)', '`c`', '&amp;', '1.', u'€', '</dt>', '<!--', 'a>b', '-', '+', 'x_y_z', '[a](b)', 'a]', ']]', 'a] b', '\\]']
+KEYS_META = ['k', 'a_b', 'k{x}', 'a:b/c', u'é', 'k-1.2', 'a&b']
+CONFIGS = [('html', None, False), ('html', 'latin-1', False), ('markdown', None, False), ('markdown', None, True), ('latex', None, False),
+           ('plaintext', None, False)]
+
+
+def doc_case(entries, backend, encoding=None, php_extra=False, preamble='', via=None):
+    c = {'op': 'document', 'entries': entries, 'backend': backend, 'preamble': preamble, 'encoding': encoding, 'php_extra': php_extra}
+    if via:
+        c['via'] = via
+    return c
 
 
 def document_cases():
     for n in range(3):
         for es in itertools.product(ENTRY_POOL, repeat=n):
             es = list(es)
-            yield {'op': 'document', 'entries': es, 'backend': 'html', 'preamble': '', 'encoding': None, 'php_extra': False}
-            yield {'op': 'document', 'entries': es, 'backend': 'html', 'preamble': '', 'encoding': 'latin-1', 'php_extra': False}
-            yield {'op': 'document', 'entries': es, 'backend': 'markdown', 'preamble': '', 'encoding': None, 'php_extra': False}
-            yield {'op': 'document', 'entries': es, 'backend': 'markdown', 'preamble': '', 'encoding': None, 'php_extra': True}
-            yield {'op': 'document', 'entries': es, 'backend': 'latex', 'preamble': '', 'encoding': None, 'php_extra': False}
-            yield {'op': 'document', 'entries': es, 'backend': 'latex', 'preamble': '\\newcommand{\\x}{y}', 'encoding': None, 'php_extra': False}
-            yield {'op': 'document', 'entries': es, 'backend': 'plaintext', 'preamble': 'ignored', 'encoding': None, 'php_extra': False}
+            for b, enc, php in CONFIGS:
+                yield doc_case(es, b, enc, php, preamble='ignored' if b == 'plaintext' else '')
+            yield doc_case(es, 'latex', preamble='\\newcommand{\\x}{y}')
+
+
+def label_documents():
+    """labels and keys over the metacharacters, every backend"""
+    second = {'key': 'k2', 'label': '2', 'tree': node({'k': 'tag', 'n': 'em'}, ['y'])}
+    for lab in LABELS_META:
+        for b, enc, php in CONFIGS:
+            yield doc_case([{'key': 'k1', 'label': lab, 'tree': 'x'}, second], b, enc, php)
+            yield doc_case([second, {'key': 'k1', 'label': lab, 'tree': node({'k': 'text'}, [])}], b, enc, php)
+        for enc in ('ascii', 'latin-1'):
+            yield doc_case([{'key': 'k1', 'label': lab, 'tree': 'x'}], 'latex', enc)
+    for key in KEYS_META:
+        for b, enc, php in CONFIGS:
+            yield doc_case([{'key': key, 'label': '1', 'tree': 'x'}, second], b, enc, php)
+        yield doc_case([{'key': key, 'label': '1', 'tree': 'x'}], 'latex', 'ascii')
+
+
+def file_documents():
+    """write_to_file: every backend x every modelled encoding, contents the encoding can hold (LaTeX: after translation)"""
+    ascii_entries = [ENTRY_POOL[0], ENTRY_POOL[1]]
+    latin = [{'key': 'k1', 'label': '1', 'tree': node({'k': 'tag', 'n': 'em'}, [u'naïve Ç\xa0x'])}]
+    wide = [{'key': 'k1', 'label': '1', 'tree': node({'k': 'text'}, [u'Łódź – α', SYMS[0], u'ﬁn'])}]
+    none = [{'key': 'k1', 'label': '1', 'tree': u'3 €'}]
+    for b in BACKENDS:
+        for enc in ENCODINGS:
+            for es in ([], ascii_entries, latin, wide, none):
+                for php in ((False, True) if b == 'markdown' else (False,)):
+                    c = doc_case(es, b, enc, php, via='file')
+                    if _file_representable(c):
+                        yield c
+                    if b == 'latex':
+                        yield doc_case(es, b, enc, php)
+    for y in UNKNOWN_SYMS:
+        for b in BACKENDS:
+            yield doc_case([ENTRY_POOL[2], {'key': 'k', 'label': '1', 'tree': node({'k': 'text'}, ['a', y])}], b)
+            yield doc_case([{'key': 'k', 'label': '1', 'tree': y}], b, via='file')
 
 
 def rand_document(rng):
@@ -903,10 +1381,18 @@ def rand_document(rng):
     es = []
     for i in range(n):
         label = rng.choice(['%d' % (i + 1), 'Knu%d' % rng.randint(0, 99), 'WWW', 'mmm', 'iii', 'ab', 'ba', 'A+', ''])
-        es.append({'key': 'key%d' % i, 'label': label, 'tree': rand_tree(rng, rng.randint(0, 3), True)})
+        if rng.random() < 0.25:
+            label = rng.choice(LABELS_META) if rng.random() < 0.6 else ''.join(rng.choice(ALPHA) for _ in range(rng.randint(1, 3)))
+        key = 'key%d' % i if rng.random() < 0.9 else rng.choice(KEYS_META)
+        es.append({'key': key, 'label': label, 'tree': rand_tree(rng, rng.randint(0, 3), True)})
     b = rng.choice(BACKENDS)
-    return {'op': 'document', 'entries': es, 'backend': b, 'preamble': rng.choice(['', '', 'PRE', '\\providecommand{\\url}[1]{#1}']),
-            'encoding': rng.choice([None, None, 'ascii']) if b == 'html' else None, 'php_extra': b == 'markdown' and rng.random() < 0.5}
+    enc = rng.choice([None, None, 'ascii']) if b == 'html' else rng.choice([None, None, None, 'ascii', 'latin-1', 'UTF-8']) if b == 'latex' else None
+    c = doc_case(es, b, enc, b == 'markdown' and rng.random() < 0.5, rng.choice(['', '', 'PRE', '\\providecommand{\\url}[1]{#1}']))
+    if rng.random() < 0.15:
+        f = dict(c, via='file')
+        if b != 'html' and _file_representable(f):       # (html: `encoding` is also the charset named in the prologue; kept apart)
+            return f
+    return c
 
 
 def nested(depth):
@@ -934,12 +1420,22 @@ def gen_cases(tier, rng, info):
         for b in BACKENDS:
             cases.append(render_case(t, b))
     # (3) every tag name, both link modes, symbols
-    special = list(tag_trees()) + list(href_trees()) + list(symbol_trees())
+    special = list(tag_trees()) + list(href_trees()) + list(symbol_trees()) + list(markdown_trees())
     for t in special:
         for b in BACKENDS:
             cases.append(render_case(t, b))
+    # (3b) the LaTeX backend created with an encoding; symbols no backend knows
+    enc_trees = list(encoding_trees())
+    for t in enc_trees:
+        for enc in ENCODINGS:
+            cases.append(dict(render_case(t, 'latex'), encoding=enc))
+    unk = list(unknown_symbol_trees())
+    for t in unk:
+        for b in BACKENDS:
+            cases.append(render_case(t, b))
+        cases.append(dict(render_case(t, 'latex'), encoding='ascii'))
     # (4) whole documents
-    docs = list(document_cases())
+    docs = list(document_cases()) + list(label_documents()) + list(file_documents())
     cases += docs
     # (5) LaTeX values: every short string over braces, a letter and line breaks
     vals = list(strings_upto('a{}', 5 if quick else 7)) + [v for v in strings_upto('a{}\n\r', 4 if quick else 5) if '\n' in v or '\r' in v]
@@ -952,16 +1448,23 @@ def gen_cases(tier, rng, info):
     info['scope'] = ('render: every string of length <=2 over the %d characters %r (the property\'s metacharacters + a letter + a blank) and every string of length 3 over %s '
                      '(%d strings), bare and (length <=%d) inside a tag, x 4 backends; %d trees of the C08 scope (leaves, depth-1, depth-2%s, depth-3 cascades) x 4 backends; '
                      '%d tag / link / symbol trees (every tag name some backend knows + %d unknown + %d odd ones x 9 contents; %d ordinary + %d odd URLs x both link modes x 9 '
-                     'contents incl. text == URL; 3 symbols x every kind) x 4 backends; %d documents (every list of <=2 entries from a pool of 4 x html / html+encoding / '
-                     'markdown / markdown+php_extra / latex / latex+preamble / plaintext, incl. the empty bibliography); from_latex: every string of length <=%d over '
+                     'contents incl. text == URL; 3 symbols x every kind; Markdown code spans, every pair of nested / adjacent emphasis tags, emphasis next to blanks / punctuation / '
+                     'letters, %d URLs with parentheses / %% / # in every nesting, links inside links) x 4 backends; %d trees over %d non-ASCII words x latex.Backend(encoding) for '
+                     '%r; %d trees with a symbol no backend knows x 4 backends; %d documents (every list of <=2 entries from a pool of 4 x html / html+encoding / '
+                     'markdown / markdown+php_extra / latex / latex+preamble / plaintext, incl. the empty bibliography; %d labels and %d keys over the metacharacters x every '
+                     'configuration; write_to_file x 4 backends x %d encodings x 5 contents); from_latex: every string of length <=%d over '
                      '{a, {, }} and of length <=%d over {a, {, }, LF, CR} with a line break (%d values)' % (
                          len(ALPHA), ALPHA, 'a 10-character subset' if quick else 'the same alphabet', len(s2) + len(s3), 1 if quick else 2, len(trees),
-                         ' (every third)' if quick else '', len(special), len(TAGS_UNKNOWN), len(TAGS_ODD), len(URLS), len(URLS_ODD), len(docs),
+                         ' (every third)' if quick else '', len(special), len(TAGS_UNKNOWN), len(TAGS_ODD), len(URLS), len(URLS_ODD), len(URLS_SYNTAX),
+                         len(enc_trees), len(NONASCII_WORDS), ENCODINGS, len(unk), len(docs), len(LABELS_META), len(KEYS_META), len(ENCODINGS),
                          5 if quick else 7, 4 if quick else 5, len(vals)))
     # (6) random
     nrand = 2500 if quick else 60000
     for _ in range(nrand):
-        cases.append(render_case(rand_tree(rng, rng.randint(1, 4), True), rng.choice(BACKENDS)))
+        c = render_case(rand_tree(rng, rng.randint(1, 4), True), rng.choice(BACKENDS))
+        if c['backend'] == 'latex' and rng.random() < 0.3:
+            c['encoding'] = rng.choice(ENCODINGS[1:])
+        cases.append(c)
     max_depth = 8 if quick else 40
     n = 0
     while n < (1500 if quick else 30000):
